@@ -101,6 +101,15 @@ pub fn carry_prone(vs: &[&[u64]]) -> bool {
 pub fn ntt_prime(logn: u32, bits: u32, sel: u8) -> u64 {
     let two_n = 2u64 << logn;
     let mut b = bits.max(logn + 2).max(2);
+    if sel & 0x40 != 0 {
+        // a prime from the interior of the bit range (not adjacent to a power of two): the first one below a point chosen by sel
+        let lo = 1u64 << (b - 1); let hi = (1u64 << b) - 1;
+        let start = lo + ((hi - lo) as u128 * ((sel & 0x3f) as u128 + 1) / 65) as u64;
+        let mut v = start / two_n * two_n + 1;
+        if v > start { v = v.saturating_sub(two_n); }
+        let mut steps = 0;
+        while v >= lo && v > 1 && steps < 20_000 { if refmath::is_prime(v) { return v; } if v < two_n { break; } v -= two_n; steps += 1; }
+    }
     loop {
         assert!(b <= 62, "no NTT prime found");
         let k = (sel % 4) as usize;
